@@ -38,11 +38,11 @@ COMPONENTS = {
     "real": ["PluginManager (add_plugin, get_plugin, is_supported, plugins, _from_entry_points cache)", "entry-point plug-ins incl. ExternalOptimizerPlugin"],
     "stub": ["4 stub plug-ins per type with overlapping method sets and discovery flags", "reference registry model"],
 }
-PROBES = ["ops", "duplicate_rejected", "prioritized_add", "bare_lookup_found", "bare_lookup_skipped_undiscoverable", "named_lookup_found",
+PROBES = ["lookup_repeated_after_add", "ops", "duplicate_rejected", "prioritized_add", "bare_lookup_found", "bare_lookup_skipped_undiscoverable", "named_lookup_found",
           "lookup_failed", "wrong_case_name", "second_manager", "external_not_discovered", "listing_compared", "duplicate_after_prioritize"]
 TYPES = ["optimizer", "sampler", "realization_filter", "function_estimator", "plan_handler", "plan_step"]
 # universe: (base name, methods, allows_discovery)
-UNIVERSE = [("alpha", {"m1", "m2"}, True), ("beta", {"m2", "m3"}, True), ("gamma", {"m1", "m3", "m4"}, False), ("delta", {"m4", "slsqp", "norm", "mean"}, True)]
+UNIVERSE = [("alpha", {"m1", "m2"}, True), ("beta", {"m1", "m2", "m3"}, True), ("gamma", {"m1", "m3", "m4"}, False), ("delta", {"m4", "slsqp", "norm", "mean"}, True)]
 METHODS = ["m1", "m2", "m3", "m4", "m5", "slsqp", "norm", "mean"]
 
 
@@ -103,10 +103,16 @@ def generate(seed: int, index: int, tier: str) -> dict:
         return {"prop": PROP, "ops": ops, "managers": 1, "stratum": "short", "allow_empty_script": True}
     ops = []
     managers = 1
+    focal = rng.choice(TYPES)
+    lookups: list[dict] = []
     for _ in range(rng.randint(5, 30)):
         c = rng.random()
-        ptype = rng.choice(TYPES)
+        ptype = focal if rng.random() < 0.8 else rng.choice(TYPES)
         m = rng.randrange(managers)
+        # the same lookup again after the registry changed: lookups must not leave anything behind
+        if lookups and ops and ops[-1]["op"] == "add" and rng.random() < 0.6:
+            ops.append(dict(rng.choice(lookups)))
+            continue
         if c < 0.06 and managers < 3:
             ops.append({"op": "new"})
             managers += 1
@@ -120,6 +126,7 @@ def generate(seed: int, index: int, tier: str) -> dict:
                 nm = rng.choice(["alpha", "beta", "gamma", "delta", "scipy", "external", "default", "nope"])
                 meth = f"{_case(rng, nm)}/{rng.choice(METHODS + ['default'])}"
             ops.append({"op": "get", "m": m, "type": ptype, "method": meth})
+            lookups.append(ops[-1])
         elif c < 0.9:
             if rng.random() < 0.5:
                 meth = rng.choice(METHODS)
@@ -127,6 +134,7 @@ def generate(seed: int, index: int, tier: str) -> dict:
                 nm = rng.choice(["alpha", "beta", "gamma", "delta", "scipy", "external", "nope"])
                 meth = f"{_case(rng, nm)}/{rng.choice(METHODS)}"
             ops.append({"op": "supported", "m": m, "type": ptype, "method": meth})
+            lookups.append(ops[-1])
         else:
             ops.append({"op": "list", "m": m, "type": ptype})
     return {"prop": PROP, "ops": ops, "managers": 1, "stratum": "sampled", "allow_empty_script": True}
@@ -179,9 +187,21 @@ def execute(scn: dict) -> dict:
     log = []
     added = looked = False
     prioritized_names: set = set()
+    seen_lookups: set = set()
+    mutated_since: dict = {}
     for i, op in enumerate(scn["ops"]):
         probe("ops")
         kind = op["op"]
+        lk = (op.get("m", 0), op.get("type"), op.get("method"))
+        if kind in ("get", "supported"):
+            if lk in seen_lookups and mutated_since.get(lk):
+                probe("lookup_repeated_after_add")
+            seen_lookups.add(lk)
+            mutated_since[lk] = False
+        elif kind == "add":
+            for key in list(mutated_since):
+                if key[0] == op.get("m", 0) % max(len(managers), 1) and key[1] == op.get("type"):
+                    mutated_since[key] = True
         if kind == "new":
             if len(managers) < 3:
                 new_manager()
